@@ -84,7 +84,7 @@ func pickRel(r *rand.Rand, td *openfgav1.TypeDefinition) string {
 	return names[r.Intn(len(names))]
 }
 
-const NDegenerations = 35
+const NDegenerations = 37
 
 func degenerateOnce(r *rand.Rand, m *openfgav1.AuthorizationModel) string {
 	td := pickTD(r, m)
@@ -233,6 +233,29 @@ func degenerateOnce(r *rand.Rand, m *openfgav1.AuthorizationModel) string {
 		tn := []openfgav1.ConditionParamTypeRef_TypeName{openfgav1.ConditionParamTypeRef_TYPE_NAME_LIST, openfgav1.ConditionParamTypeRef_TYPE_NAME_MAP}[r.Intn(2)]
 		m.Conditions["c"] = &openfgav1.Condition{Name: "c", Expression: "x", Parameters: map[string]*openfgav1.ConditionParamTypeRef{"p": {TypeName: tn}}}
 		return "container parameter without element type"
+	case 35, 36:
+		// containers nested in containers: the innermost one with, without or with too many element types
+		if m.Conditions == nil {
+			m.Conditions = map[string]*openfgav1.Condition{}
+		}
+		cont := func() openfgav1.ConditionParamTypeRef_TypeName {
+			return []openfgav1.ConditionParamTypeRef_TypeName{openfgav1.ConditionParamTypeRef_TYPE_NAME_LIST, openfgav1.ConditionParamTypeRef_TYPE_NAME_MAP}[r.Intn(2)]
+		}
+		inner := &openfgav1.ConditionParamTypeRef{TypeName: cont()}
+		switch r.Intn(3) {
+		case 1:
+			inner.GenericTypes = []*openfgav1.ConditionParamTypeRef{{TypeName: openfgav1.ConditionParamTypeRef_TYPE_NAME_STRING}}
+		case 2:
+			inner.GenericTypes = []*openfgav1.ConditionParamTypeRef{{TypeName: openfgav1.ConditionParamTypeRef_TYPE_NAME_STRING}, {TypeName: openfgav1.ConditionParamTypeRef_TYPE_NAME_INT}}
+		}
+		for d := r.Intn(3); d >= 0; d-- {
+			inner = &openfgav1.ConditionParamTypeRef{TypeName: cont(), GenericTypes: []*openfgav1.ConditionParamTypeRef{inner}}
+		}
+		if k == 36 {
+			inner.GenericTypes = append(inner.GenericTypes, &openfgav1.ConditionParamTypeRef{TypeName: openfgav1.ConditionParamTypeRef_TYPE_NAME_BOOL})
+		}
+		m.Conditions["c"] = &openfgav1.Condition{Name: "c", Expression: "x", Parameters: map[string]*openfgav1.ConditionParamTypeRef{"p": inner}}
+		return "container parameter nested in containers"
 	case 25:
 		if m.Conditions == nil {
 			m.Conditions = map[string]*openfgav1.Condition{}
